@@ -61,8 +61,10 @@ def run(chk, replay=None):
     for fmt in sorted(B):
         K = B[fmt]
         dec = datafmt.decoder(fmt)
-        for _ in range(n):
+        for it in range(n):
             b0 = datafmt.GEN[fmt](rng, 1) if fmt.startswith("ModeSense") else datafmt.GEN[fmt](rng)
+            if fmt == "ReadElementStatus" and it == 0:
+                b0 = datafmt.big_element_status(rng)         # a report and a page that need three-byte counts
             try:
                 d = dec(bytearray(b0))
             except Exception:
@@ -86,6 +88,13 @@ def run(chk, replay=None):
             try:
                 built = K.marshall_datain(copy.deepcopy(d))
                 e["bytes"] = list(built)
+                # the caller keeps its dictionary and builds again from the very same objects: same bytes
+                live = copy.deepcopy(d)
+                first = bytes(K.marshall_datain(live))
+                again = bytes(K.marshall_datain(live))
+                if first != bytes(built) or again != first:
+                    viol("BuildOfParse", fmt, "second build from the same objects",
+                         {"first": list(first)[:64], "again": list(again)[:64]})
             except Exception as ex:
                 e["exc"] = type(ex).__name__
                 marsh.append(e)
